@@ -172,7 +172,11 @@ def h_soap(ch: Chooser, vec: list, maxfeat: int, maxops: int):
 
     def bad(kind: str, detail: str, op=None, **facts):
         kf = known(w, op, mode, kind, detail, facts)
-        return dict(ok=False, case=case, bucket=kf or f"{kind}/{feats}" + (f"/{op.shape}" if op is not None else ""), detail=detail[:1500])
+        # unanalysed outcomes are bucketed by what went wrong and the kind of operation, not by every combination of deviations
+        if kind.startswith(("client-headers", "client-posts", "client-payload")):
+            return dict(ok=False, case=case, bucket=kf or kind, detail=detail[:1500])
+        where = f"{op.style}/{op.shape}" + ("+header" if op.input.headers else "") + ("+fault" if op.faults else "") if op is not None else feats
+        return dict(ok=False, case=case, bucket=kf or f"{kind}/{where}", detail=detail[:1500])
 
     # oracle 1: generation succeeds, the package imports
     if ent["problem"]:
@@ -182,30 +186,37 @@ def h_soap(ch: Chooser, vec: list, maxfeat: int, maxops: int):
     if mode == "static":
         if len(ent["all_services"]) != len(w.ops) or len(ent["services"]) != len(w.ops):
             return bad("service-classes-missing", f"{len(w.ops)} operations, service classes {[s.__name__ for s in ent['all_services']]}")
+        problems = []   # every check runs; an analysed defect must not hide another problem of the same definition
         for op in w.ops:
             svc = ent["services"][op.name]
             exp = GW.expected_description(w, op)
             # oracle 2: the service description
             for attr in ("style", "location", "transport"):
                 if getattr(svc, attr, None) != exp[attr]:
-                    return bad(f"service-{attr}-differs", f"{svc.__name__}.{attr} = {getattr(svc, attr, None)!r}, the binding says {exp[attr]!r}", op)
+                    problems.append(bad(f"service-{attr}-differs", f"{svc.__name__}.{attr} = {getattr(svc, attr, None)!r}, the binding says {exp[attr]!r}", op))
             act = getattr(svc, "soap_action", None)
             # an empty / absent soapAction carries no information: upstream's hello fixture documents that the constant is then left out
             if (act or "") != exp["soap_action"]:
-                return bad("service-soap_action-differs", f"{svc.__name__}.soap_action = {act!r}, the binding says {exp['soap_action']!r}", op)
+                problems.append(bad("service-soap_action-differs", f"{svc.__name__}.soap_action = {act!r}, the binding says {exp['soap_action']!r}", op))
             for attr in ("input", "output"):
                 cls = getattr(svc, attr, None)
                 if not (isinstance(cls, type) and dataclasses.is_dataclass(cls)):
-                    return bad(f"service-{attr}-class-missing", f"{svc.__name__}.{attr} = {cls!r}", op)
+                    problems.append(bad(f"service-{attr}-class-missing", f"{svc.__name__}.{attr} = {cls!r}", op))
+                    continue
                 r = call(XmlContext().build_recursive, cls)
                 if r[0] == "exc":
-                    return bad("envelope-class-unusable", f"{svc.__name__}.{attr}: {r[1]!r}", op)
-                meta = XmlContext().build(cls)
-                if meta.qname != f"{{{GW.ENV_NS}}}Envelope":
-                    return bad("envelope-class-wrong-root", f"{svc.__name__}.{attr} binds {meta.qname}", op)
+                    problems.append(bad("envelope-class-unusable", f"{svc.__name__}.{attr}: {r[1]!r}", op))
+                    continue
+                meta = call(XmlContext().build, cls)
+                if meta[0] == "exc" or meta[1].qname != f"{{{GW.ENV_NS}}}Envelope":
+                    problems.append(bad("envelope-class-wrong-root", f"{svc.__name__}.{attr} binds {meta[1].qname if meta[0] == 'ok' else meta[1]!r}", op))
             cfg = call(Config.from_service, svc)
             if cfg[0] == "exc":
-                return bad("config-from-service-fails", repr(cfg[1]), op)
+                problems.append(bad("config-from-service-fails", repr(cfg[1]), op))
+            elif (cfg[1].location, cfg[1].transport, cfg[1].input, cfg[1].output) != (getattr(svc, "location", None), getattr(svc, "transport", None), getattr(svc, "input", None), getattr(svc, "output", None)):
+                problems.append(bad("config-differs-from-service", f"{cfg[1]!r}", op))
+        if problems:
+            return next((p for p in problems if not p["bucket"].startswith("KF/")), problems[0])
         return dict(ok=True, case=case, obs="static:" + feats, nontrivial=h(("static", files["svc.wsdl"])), counters={"definitions": 1, "operations": len(w.ops)})
 
     op = w.ops[ch.choose(len(w.ops), "op", free=True)]
@@ -266,8 +277,16 @@ def h_soap(ch: Chooser, vec: list, maxfeat: int, maxops: int):
     client = c[1]
     rec = RecordingTransport(canned)
     client.transport = rec
-    reference = XmlSerializer(context=XmlContext()).render(req_obj)
-    arg = _as_dict(req_obj) if as_dict else req_obj
+    ref = call(XmlSerializer(context=XmlContext()).render, req_obj)
+    if ref[0] == "exc":
+        return bad("request-render-fails", f"{ref[1]!r}\n{req_obj!r}", op)
+    reference = ref[1]
+    arg = req_obj
+    if as_dict:
+        a = call(_as_dict, req_obj)
+        if a[0] == "exc":
+            return bad("request-class-unusable", f"{a[1]!r}", op)
+        arg = a[1]
     s = call(client.send, arg, dict(user_headers) if user_headers is not None else None)
     if len(rec.calls) != 1:
         if s[0] == "exc":
@@ -337,7 +356,53 @@ def h_soap(ch: Chooser, vec: list, maxfeat: int, maxops: int):
 # analysed defects, recognised by predicates over the failing case and the wrong outcome
 
 
+def _kids(tree):
+    return [k for k in tree[2] if not isinstance(k, str)]
+
+
 def known(w: GW.Wsdl, op, mode: str, kind: str, detail: str, facts: dict) -> str | None:
+    exc = str(facts.get("exc", ""))
+    env = f"{{{GW.ENV_NS}}}"
+    if op is None:
+        return None
+    # (1) the binding lists soap:body before soap:header (the order of the WSDL 1.1 grammar): the envelope class gets
+    #     body before header and the request is written <Body/> <Header/>; SOAP 1.1 section 4 wants Header first
+    if kind in ("request-envelope-differs", "client-payload-differs-from-prescribed-envelope") and op.input.headers and not op.input.header_first:
+        exp, act = facts["exp"], facts["act"]
+        if [k[0] for k in _kids(act)] == [env + "Body", env + "Header"] and (act[0], act[1], tuple(reversed(act[2]))) == exp:
+            return "KF/soap-header-written-after-body-when-binding-lists-body-first"
+    # (2) a soap:header on wsdl:output makes `header` a required field of the output envelope; a fault answer (which the
+    #     binding gives no header) is then rejected
+    if kind in ("client-cannot-parse-prescribed-response", "prescribed-response-rejected-under-strict-settings") and facts.get("resp_kind") == "fault" \
+            and op.output.headers and "missing 1 required keyword-only argument: 'header'" in exc:
+        return "KF/fault-response-rejected-when-output-binds-a-header"
+    # (3) no style attribute anywhere: WSDL 1.1 3.3 says document; the service class carries no style at all
+    if kind == "service-style-differs" and w.style_on == "absent" and "style = None" in detail:
+        return "KF/default-document-style-missing-from-service-class"
+    # (3b) a SOAP 1.2 binding of the same port type (as in upstream's calculator fixture) yields classes of the same names; the last
+    #      port wins, so the service class announces the SOAP 1.2 endpoint while its envelopes are SOAP 1.1
+    if kind in ("service-location-differs", "client-posts-to-wrong-url") and w.soap12_port and repr(GW.soap12_location(w)) in detail:
+        return "KF/soap12-port-of-the-same-port-type-overwrites-the-service-location"
+    # (4) rpc: the response wrapper is expected under the output MESSAGE's name instead of operation name + "Response"
+    if kind in ("client-cannot-parse-prescribed-response", "prescribed-response-rejected-under-strict-settings") and facts.get("resp_kind") == "output" \
+            and op.style == "rpc" and op.output.message.name != op.name + "Response" and f"Body:{{{w.rpc_ns}}}{op.name}Response" in exc:
+        return "KF/rpc-response-wrapper-named-after-message-instead-of-operation"
+    # (5) rpc: the wrapper class is built from ALL parts of the message, also those soap:body/@parts leaves out (bound by soap:header)
+    if kind == "prescribed-request-rejected" and op.style == "rpc" and op.input.body_parts is not None \
+            and len(op.input.parts_in_body()) < len(op.input.message.parts) and "missing 1 required keyword-only argument: 'hdr'" in exc:
+        return "KF/rpc-wrapper-demands-parts-that-soap-body-parts-excludes"
+    # (6) soap:body parts="" (no part forms the body, WS-I BP R2202) is read as "all parts"
+    if kind == "prescribed-request-rejected" and op.style == "document" and op.input.body_parts == [] and op.input.message.parts \
+            and "missing 1 required keyword-only argument" in exc:
+        return "KF/empty-soap-body-parts-read-as-all-parts"
+    # (7), (8) the pairings WS-I BP forbids but WSDL 1.1 3.5 defines (on the output side when an operation answers with such a message)
+    req = kind == "prescribed-request-rejected"
+    resp = kind in ("client-cannot-parse-prescribed-response", "prescribed-response-rejected-under-strict-settings") and facts.get("resp_kind") == "output"
+    parts = op.input.parts_in_body() if req else op.output.parts_in_body() if resp else []
+    if op.style == "document" and any(p.element is None for p in parts) and "Unknown property" in exc:
+        return "KF/document-style-part-by-type-is-wrapped-in-an-element-named-after-the-part"
+    if op.style == "rpc" and any(p.element is not None for p in parts) and "Unknown property" in exc:
+        return "KF/rpc-part-by-element-is-not-put-under-an-accessor-named-after-the-part"
     return None
 
 
@@ -350,8 +415,6 @@ def run(tier: str, seed: int) -> int:
     vecs = enumerate_definitions(maxfeat, maxops)
     tasks = [("c17.soap", dict(vec=v, maxfeat=maxfeat, maxops=maxops), payload_bound, ()) for v in vecs]
     stats = parallel(tasks, explore_task, chunk=4)
-    for ent in _GEN.values():
-        ent["gen"].cleanup()
     confirm_violations(stats)
     for ent in _GEN.values():
         ent["gen"].cleanup()
@@ -362,7 +425,7 @@ def run(tier: str, seed: int) -> int:
               "soap:binding / soap:operation / both / nowhere, part shapes per operation (element of anonymous / named / simple type, no parts, rpc parts of builtin / complex / enumeration / restricted "
               "type, two rpc parts, the two non-BP pairings), soap:header from its own message / the body's message / after soap:body / on input and output, one or two faults, schema inline / "
               "xs:import / wsdl:import of an xsd / wsdl:import of an abstract WSDL / two inline schemas, schema namespace = or != the WSDL's, elementFormDefault, soapAction per operation / empty / "
-              "absent / URL with query, endpoint with query string, operation and message naming, default-namespace WSDL) x every operation x {service description, requests, responses, faults} "
+              "absent / URL with query, endpoint with query string, operation and message naming, default-namespace WSDL, an additional SOAP 1.2 binding + port of the same port type, one output message shared by all operations) x every operation x {service description, requests, responses, faults} "
               f"x every payload with <= {payload_bound} non-default answers (optional elements, value alphabets, encoding, user headers incl. colliding ones, dictionary input, fault fields / detail)."),
         assumptions=["stand-ins for jinja2 / toposort / ruff / click (shims/, conformance-checked); `requests` is a names-only stand-in and DefaultTransport is not exercised: the client talks to a recording transport",
                      "expected envelopes are built from the WSDL AST with an explicit-prefix writer and read back by expat + libxml2, never by xsdata",
